@@ -609,6 +609,35 @@ impl Docs {
                         cx.fault("older_version_database");
                         cx.ev("drop-derived", format!("{by_key} {heads}"));
                         if mode == Mode::Migrate {
+                            // the open that rebuilds the tables may itself be interrupted: every crash
+                            // point of it (all writes so far / synced writes only) must, when opened
+                            // again, give the same answers as the uninterrupted open
+                            let disk = sut.disk.as_ref().unwrap().clone();
+                            let n_open = disk.log_len();
+                            let mut seen = std::collections::HashSet::new();
+                            for w in 0..=n_open {
+                                for loss in [Loss::L1, Loss::L2] {
+                                    let img = disk.image_at(w, loss);
+                                    if !seen.insert(crate::rng::fnv(&img)) {
+                                        continue;
+                                    }
+                                    cx.fault("crash_during_the_rebuilding_open");
+                                    let dd = crate::disk::SimDisk::from_image(img);
+                                    let mut st = match Store::verif_with_backend(dd.clone()) {
+                                        Ok(st) => st,
+                                        Err(e) => return Err(Violation::new("rebuild/open-fails-after-interrupted-open", format!("step {si}: {loss:?} crash after disk op {w}/{n_open} of the open that rebuilds the derived tables: opening again fails: {e:#}"))),
+                                    };
+                                    for (d, b) in before.iter().enumerate() {
+                                        let a = observe(&mut st, plan.ns(d as u8)).map_err(harness)?;
+                                        let what = if a.heads != b.heads { Some("heads") } else if a.by_key != b.by_key { Some("index") } else if a.entries != b.entries { Some("entries") } else { None };
+                                        if let Some(what) = what {
+                                            return Err(Violation::new(format!("rebuild/{what}-after-interrupted-open"), format!("step {si}: {loss:?} crash after disk op {w}/{n_open} of the open that rebuilds the derived tables (by_key={by_key}, heads={heads}); after opening again d{d} answers differently ({what}: {} heads / {} index rows / {} entries, expected {} / {} / {})", a.heads.len(), a.by_key.len(), a.entries.len(), b.heads.len(), b.by_key.len(), b.entries.len())));
+                                        }
+                                    }
+                                    dd.freeze();
+                                    drop(st);
+                                }
+                            }
                             for (d, b) in before.iter().enumerate() {
                                 let a = observe(sut.store(), plan.ns(d as u8)).map_err(harness)?;
                                 if a.heads != b.heads {
